@@ -17,7 +17,7 @@ LEVEL = "fault_enumeration"
 RULE = ("Hypothesis rule-based state machine over a wallet (fixed + freshly generated keys): generate keys, hand out a key with "
         "an annotation from st.text(), restore a handed-out key, dump/load through StringIO, save_wallet + reload with "
         "Wallet.load and open_or_init_wallet in a private cwd (continuing either with the loaded wallet or with the SAME object, "
-        "which is then saved again later), balance query on a generated ledger; for EVERY save_wallet of a "
+        "which is then saved again later), the receive SCRIPT run as the next process on the saved file, balance query on a generated ledger; for EVERY save_wallet of a "
         "sequence EVERY crash point is enumerated (before/after file creation, before each written chunk, before close, before "
         "and after the rename) in a forked child that is killed there. Model: (key pairs, unused list, annotations, keys handed "
         "out and not restored). Oracle: load(dump(w)) == w field by field; a hand-out while the model's unused list is non-"
@@ -95,6 +95,40 @@ class Exec:
                     self.flags["handout_both_sides"] = True
                 if not self.flags["saveload_seen"]:
                     self.flags["handout_before_saveload"] = True
+        elif k == "receive_script":
+            # the command-line path: `skepticoin-receive <annotation>` run as the NEXT process on the saved wallet file
+            import sys
+            from skepticoin.scripts import receive
+            W.save_wallet(w)
+            had_unused = len(w.unused_public_keys) > 0
+            if not had_unused:
+                return
+            before_out = set(self.out)
+            argv, out = sys.argv, io.StringIO()
+            sys.argv = ["skepticoin-receive", op[1]]
+            old_stdout = sys.stdout
+            sys.stdout = out
+            try:
+                receive.main()
+            finally:
+                sys.argv, sys.stdout = argv, old_stdout
+            line = [l for l in out.getvalue().splitlines() if l.startswith("SKE") and l.endswith("PTI")]
+            if len(line) != 1:
+                self.fail("handout", "receive-script-printed-no-address", "the receive script printed %d addresses" % len(line))
+                return
+            pk = bytes.fromhex(line[0][3:-3])
+            with open("wallet.json") as fh:
+                w2 = W.Wallet.load(fh)
+            if pk not in w2.keypairs or pk not in w.keypairs:
+                self.fail("handout", "handed-out-key-not-in-wallet", "the receive script printed an address the wallet has no private key for")
+            if pk in before_out:
+                self.fail("handout", "key-handed-out-twice", "the receive script handed out a key that is still handed out (%d unused keys remained)" % len(w.unused_public_keys))
+            if pk in w2.unused_public_keys or w2.public_key_annotations.get(pk) != op[1]:
+                self.fail("handout", "receive-script-hand-out-not-saved", "after the receive script the wallet file does not record the hand-out (the next run would hand out the same key)")
+            self.out.add(pk)
+            self.w = w2
+            self.flags["receive_script_runs"] = self.flags.get("receive_script_runs", 0) + 1
+            self.flags["saveload_seen"] = True
         elif k == "restore":
             cands = sorted(self.out)
             if not cands:
@@ -239,6 +273,10 @@ class Machine(RuleBasedStateMachine):
     def handout(self, a):
         self.do(["handout", a])
 
+    @rule(a=st.sampled_from(["rent", "from bob", "x", "reserved for potentially mined block", "é中"]))
+    def receive_script(self, a):
+        self.do(["receive_script", a])
+
     @rule(i=st.integers(0, 50))
     def restore(self, i):
         self.do(["restore", i])
@@ -265,6 +303,7 @@ class Machine(RuleBasedStateMachine):
         res.count("crash_points", self.ex.crash_points)
         res.disjoint += self.ex.inner_points
         res.evaluations += self.ex.crash_points
+        res.count("receive_script_runs", self.ex.flags.get("receive_script_runs", 0))
         if self.ex.flags["handout_both_sides"]:
             res.count("machines_handout_both_sides_of_saveload")
         if res.counters["machines"] in (3, 12):
